@@ -10,7 +10,7 @@ use crate::with_spec;
 pub const RULE: &str = "inputs from the reader mix (valid / non-canonical reference encodings / structure-aware mutations / random bytes / adversarial headers / mid-document suffixes) \
 × any subset of the three tolerated error classes × random buffered-master subset × capacity {default, 16..64, len}. Oracle, on the successful items up to the first error: the reference header parser \
 at the reported offset finds the item's id; the value equals the reference decoding of the payload bytes for the spec's type; each non-End item starts exactly where the previous one's header (masters) or payload ended \
-(first one at 0); End items report their Start's offset (0 for implied ancestors); Full items report the master's tag start and their children tile recursively. Stage offsets_beyond_4GiB: a synthesized stream of 4.06 GiB (1 040 groups of a 4-byte stamp and a 4 MiB payload under one unknown-size master; nothing of it is stored), every item's offset and value against the generator's arithmetic (non-trivial there: items beyond 2^32). Non-trivial: >= 3 items checked incl. >= 1 master; distinct by (input bytes, configuration).";
+(first one at 0); End items report their Start's offset (0 for implied ancestors); Full items report the master's tag start and their children tile recursively. Stage mirror_deep_nesting: the same oracle on documents nested 28-300 masters deep (gen_deep). Stage offsets_beyond_4GiB: a synthesized stream of 4.06 GiB (1 040 groups of a 4-byte stamp and a 4 MiB payload under one unknown-size master; nothing of it is stored), every item's offset and value against the generator's arithmetic (non-trivial there: items beyond 2^32). Non-trivial: >= 3 items checked incl. >= 1 master; distinct by (input bytes, configuration).";
 
 pub const ASSUMPTIONS: &[&str] = &[
     "statements about bytes after the first error are out of scope",
@@ -53,6 +53,18 @@ pub fn gen_read_cfg(t: &mut Tape, m: &MixedInput, small_caps: bool) -> ReadCfg {
 fn stage(i: &Input, c: &mut Case) -> Result<(), String> {
     let mut t = Tape::new(i.tape());
     let m = gen_mixed(&mut t, MixOpts::default());
+    mirror(t, m, c)
+}
+
+/// the same oracle on documents nested 28 .. 300 masters deep (`gen_deep`)
+fn stage_deep(i: &Input, c: &mut Case) -> Result<(), String> {
+    let mut t = Tape::new(i.tape());
+    let m = gen_deep(&mut t, false);
+    c.label("nested_28_to_300_deep");
+    mirror(t, m, c)
+}
+
+fn mirror(mut t: Tape, m: MixedInput, c: &mut Case) -> Result<(), String> {
     let cfg = gen_read_cfg(&mut t, &m, false);
     // how the source hands the bytes over is no part of the input: a third of the cases are read through short reads of one size
     // (drawn last from the tape so that recorded tapes keep their meaning)
@@ -195,10 +207,11 @@ fn stage_far(i: &Input, c: &mut Case) -> Result<(), String> {
     Ok(())
 }
 
-pub const STAGES: &[Stage] = &[Stage { name: "mirror", f: stage }, Stage { name: "offsets_beyond_4GiB", f: stage_far }];
+pub const STAGES: &[Stage] = &[Stage { name: "mirror", f: stage }, Stage { name: "offsets_beyond_4GiB", f: stage_far }, Stage { name: "mirror_deep_nesting", f: stage_deep }];
 
 pub fn run(rc: &mut RunCtx) {
     rc.run_pt(STAGES[0], rc.pick(960_000, 5_000_000), (96, 500));
+    rc.run_pt(STAGES[2], rc.pick(12_000, 100_000), (64, 200));
     for l in ["has_full", "tolerant", "input_mid_document", "input_mutated", "after_compaction", "implied_ancestor_end", "short_reads"] {
         rc.require_label("mirror", l, 10_000);
     }
